@@ -98,20 +98,28 @@ def rule_R1(ctx):
                               "%s.sig originates from %s" % (ty, src), ctx.loc(cb, ci))
     ctx.floor("R1", "output constructors in analyze_tcp closures", n, 8)
     ctx.floor("R1", "uptime role sites", nroles, 2)
-    # merge: handle_http_tcp_tlc
-    hb = P.body("huginn_net::process::handle_http_tcp_tlc")
+    # merge: read on execute_analysis with handle_http_tcp_tlc written out at its call (the same statements whether the merge helper
+    # exists or the package is assembled in execute_analysis itself)
+    hb = P.inlined_view("huginn_net::process::execute_analysis", ("handle_http_tcp_tlc",))
     SH = T.Slicer(hb, P)
+    nmerge = 0
     for (hi, hj, hs) in Q.aggregates(hb, "process::ObservablePackage"):
+        nmerge += 1
         for nm, o in zip(hs["r"]["fields"], hs["r"]["ops"]):
             t = SH.operand(o, hi, hj)
             if nm in ("source", "destination"):
                 okk = T.strip(t)[0] == "param" and T.strip(t)[2] == nm
             else:
                 fl = _fields(t)
-                pk = {x[2] for x in T.params_in(t)}
-                wantp = "http_response" if nm.startswith("http") else ("tls_response" if nm.startswith("tls") else "tcp_response")
-                okk = nm in fl and pk == {wantp}
+                proto = "http" if nm.startswith("http") else ("tls" if nm.startswith("tls") else "tcp")
+                # the protocol packages the value can come from: the result of that protocol's entry point, or its all-None package
+                srcs = {T.short(x[1]).rsplit("::", 1)[-1] for x in T.calls_in(t) if T.short(x[1]).rsplit("::", 1)[-1].startswith("process_")}
+                pkgs = {(x[2] or "").rsplit("::", 1)[-1] for x in T.walk(t) if x[0] == "agg" and (x[2] or "").rsplit("::", 1)[-1].startswith("Observable") and
+                        (x[2] or "").endswith("Package")}
+                want_pkg = {"http": "ObservableHttpPackage", "tls": "ObservableTlsPackage", "tcp": "ObservableTCPPackage"}[proto]
+                okk = nm in fl and (srcs or pkgs) and all(x.startswith("process_" + proto) for x in srcs) and pkgs <= {want_pkg}
             ctx.check(okk, "R1", "merge.%s" % nm, "%s <- like-named field of its protocol package" % nm, "merged field %s comes from %s" % (nm, T.pp(t)[:80]), ctx.loc(hb, hi))
+    ctx.floor("R1", "merged package constructions", nmerge, 1)
     # endpoints of the package: this packet's addresses and ports
     pb = P.body("huginn_net::process::process_ip")
     SP = T.Slicer(pb, P)
@@ -175,8 +183,9 @@ def rule_R2_R3(ctx):
                 okk = True
         ctx.check(okk, "R3", "execute_analysis:disabled:%s" % ty, "disabled protocol yields the all-None package", "disabled branch of %s is not all-None" % ty, ctx.loc(eb))
     # the three results are merged without further conditions
-    hs = Q.calls(eb, "handle_http_tcp_tlc")
-    ctx.check(len(hs) == 1, "R3", "execute_analysis:merge", "single merge of the three packages", "merge call missing", ctx.loc(eb))
+    vb = P.inlined_view("huginn_net::process::execute_analysis", ("handle_http_tcp_tlc",))
+    hs = Q.aggregates(vb, "process::ObservablePackage")
+    ctx.check(len(hs) == 1, "R3", "execute_analysis:merge", "single merge of the three packages", "the three packages are merged at %d places (expected one)" % len(hs), ctx.loc(eb))
 
 
 def _quality_sites(P, b):
